@@ -131,18 +131,13 @@ Theorem C10_force_in_progress : forall P L fuel d st framed i,
     if (framed && (L <? d + 1))%bool then Err DepthSem.StackOverflow else Err InfiniteRecursion.
 Proof. exact force_in_progress. Qed.
 
-(* a cycle of c = n+1 local thunks: InfiniteRecursion iff the limit leaves room
-   for the cycle and the repeated force (c + 1 <= L), StackOverflow otherwise *)
-Definition cycle_outcome_ok (n : nat) (L : N) : bool :=
-  match top (cycle_program n) L (2 * n + 8) with
-  | Err InfiniteRecursion => N.of_nat n + 2 <=? L
-  | Err DepthSem.StackOverflow => L <? N.of_nat n + 2
-  | _ => false
-  end.
-Definition C10_cycle_goal : Prop := forall n L, cycle_outcome_ok n L = true.
-Theorem C10_cycle_detected_partial :
-  forallb (fun n => forallb (fun l => cycle_outcome_ok n (N.of_nat l)) (seq 0 40)) (seq 0 32) = true.
-Proof. vm_compute. reflexivity. Qed.
+(* a cycle of c = n+1 local thunks (l0 = l1, ..., ln = l0), every n, every limit:
+   InfiniteRecursion iff the limit leaves room for the cycle and the repeated
+   force (c + 1 <= L), StackOverflow otherwise *)
+Theorem C10_cycle_detected : forall n L fuel, (2 * n + 6 <= fuel)%nat ->
+  top (cycle_program n) L fuel =
+    if N.of_nat n + 2 <=? L then Err InfiniteRecursion else Err DepthSem.StackOverflow.
+Proof. exact cycle_detected. Qed.
 
 (* non-vacuity: direct recursion of depth 5 through calls (value 7 = "55") succeeds exactly from
    its peak depth on, with the same value; the model's peak is what the limit
@@ -173,5 +168,5 @@ Print Assumptions C10_depth_never_exceeds.
 Print Assumptions C10_top_depth_never_exceeds.
 Print Assumptions C10_top_depth_never_exceeds.
 Print Assumptions C10_force_in_progress.
-Print Assumptions C10_cycle_detected_partial.
+Print Assumptions C10_cycle_detected.
 Print Assumptions C10_depthsem_nonvacuous.
